@@ -75,7 +75,12 @@ def sweep_cases():
                     o = b if L.hname(a) == "HDyn" else a
                     if L.hname(o) == "HInfer" or (L.hname(o) == "HDyn" and a != b):
                         continue
+                    alias = L.hname(o) in ("HProjection", "HOpaqueAlias")
+                else:
+                    alias = False
                 for v in (I, CO, CONTRA):
+                    if alias and v != I:
+                        continue        # alias := fresh unknown, then unknown / dyn
                     out.append((adt, [], pre + [("SBoth", v, a, b), ("SRelate", v, a, b)]))
     return out
 
